@@ -170,7 +170,7 @@ def iter_find_needle(
     """
     needle_len = len(needle)
     overlap_len = needle_len - 1
-    saved = b"\x00" * overlap_len
+    saved = b""
     if start_offset is not None:
         fp.seek(start_offset)
     while True:
@@ -186,7 +186,7 @@ def iter_find_needle(
             p = d.find(needle, p + 1)
             if p == -1 or max_offset and p > max_offset:
                 break
-            offset = pos + p - overlap_len
+            offset = pos + p - len(saved)
             yield offset
         saved = d[-overlap_len:]
 
